@@ -14,9 +14,10 @@ def repo_path():
     return os.path.abspath(os.environ.get("VERIF_REPO", "/repo"))
 
 
-def prepare(dll_dir):
+def prepare(dll_dir, create=True):
     """Set the environment *before* sasmodels is imported in this process."""
-    os.makedirs(dll_dir, exist_ok=True)
+    if create:
+        os.makedirs(dll_dir, exist_ok=True)
     os.environ["SAS_DLL_PATH"] = dll_dir
     os.environ["SAS_OPENCL"] = "none"
     os.environ.setdefault("PYTHONHASHSEED", "0")
